@@ -641,3 +641,31 @@ def rule_width_source(ctx, crate, rule="R-WIDTH-SOURCE"):
                       "wrap width comes from the target's width() (%s)" % ("queried here" if from_term else "passed through from the caller"),
                       "rows are measured with a width that does not come from the terminal being drawn to", cfg)
     ctx.floor(rule, n, 7, cfg, "wrapped_height/visual_line_count call sites")
+
+
+def rule_finished_draws_forced(ctx, crate, rule="R-FINISHED-DRAWS-FORCED"):
+    """Belief stated by `Drop for BarState` and used by MultiState::mark_zombie: a finished bar's stored draw
+    state is what is on the screen (drop of a finished bar paints nothing and keeps exactly those rows). That
+    holds only if every draw of a finished bar is forced; otherwise a rate-limited update of a finished bar
+    stores lines that were never painted. Either BarState::draw ORs is_finished() into the flag it passes to
+    drawable(), or the finished path of Drop must itself draw."""
+    cfg = crate.config
+    b = K.find_one(ctx, crate, rule, r"state::BarState::draw")
+    d = K.find_one(ctx, crate, rule, r"<state::BarState as std::ops::Drop>::drop")
+    if not b or not d:
+        return
+    cs = b.calls(K.PDT_DRAWABLE)
+    ctx.floor(rule, len(cs), 1, cfg, "drawable() calls in BarState::draw")
+    forced = True
+    for c in cs:
+        sl = b.slice_args(c, [1])
+        forced = forced and sl.has_call(r"state::ProgressState::is_finished") and (("binop", "BitOr") in sl.atoms) and not (("unop", "Not") in sl.atoms)
+    # alternative: Drop's finished path redraws
+    redraws = False
+    for sb, t in d.switches():
+        if d.slice(t["op"], at=sb).has_call(r"state::ProgressState::is_finished"):
+            reg = d.edge_region((sb, t["otherwise"]))
+            redraws = any(d.term(x) and d.term(x)["k"] == "call" and Call(d, x, d.term(x)).matches(r"state::BarState::(draw|finish_using_style)") for x in reg)
+    ctx.check(forced or redraws, rule, "finished-bar-draws", b.name, cs[0].loc() if cs else K.fn_loc(b),
+              "draws of a finished bar are always forced (is_finished() is OR-ed into the flag): the stored draw state of a finished member is what is on screen",
+              "a finished bar can be redrawn unforced: a rate-limited update stores lines that are never painted, and dropping the bar then keeps rows that are not on screen", cfg)
